@@ -24,6 +24,8 @@ EvChecks(ev) ==
   CASE ev.ev = "newepoch" ->
          IF ev.res = "ok"
          THEN EpochChecks(prev, ev.obs, PoolKids \cup VaultKids) \o EpochLedger(ev) \o UnroutedUntouched(ev)
+              \* a registered vault's CollectProtocolFees fails (ev.args.broken): the failed step must fail the transaction
+              \o << <<"C10.a-failing-collection-step-fails-the-whole-epoch", ~ev.args.broken>> >>
               \* three-asset pools are registered pools too (judged separately: known finding S15)
               \o << <<"C10.trio-pending-fees-collected",
                        \A a \in Assets :
@@ -31,7 +33,7 @@ EvChecks(ev) ==
                            = (prev.pending["trio"][a] -- Collectable(prev, "trio", a))>> >>
          ELSE << <<"C10.failed-step-leaves-everything-unchanged", ev.dpre = ev.dpost>>,
                  \* the title of C10: owed fees reach the epoch - a due epoch over a healthy pipeline must be created
-                 <<"C10.healthy-pipeline-creates-the-epoch", ev.args.route = "fails">> >>
+                 <<"C10.healthy-pipeline-creates-the-epoch", ev.args.route = "fails" \/ ev.args.broken>> >>
     [] ev.ev = "forward" ->
          << <<"C10.only-the-distributor-forwards", ev.res # "ok">>,
             <<"C10.rejected-forward-changes-nothing", ev.dpre = ev.dpost>> >>
